@@ -129,6 +129,23 @@ def wb_plan(sc):
             return rnd.randint(1, maxab)
         return None
 
+    if sc.get("mixed"):
+        # long HELD cycles (CYC rarely negated) mixing reads and writes of a few native words, CTI chosen per access
+        # (CTI is a hint: the property quantifies over all sequences of address / sel / we / CTI)
+        ratio = max(1, sc["pw"] // sc["wbw"])
+        small = max(2, ratio) * 3
+        for i in range(sc["nops"]):
+            we = int(rnd.random() < 0.5)
+            r = rnd.random()
+            pre = ("idle", 1) if (i == 0 or r < 0.06) else (("hold", rnd.choice([1, 2])) if r < 0.25 else ("b2b", 0))
+            a = rnd.randrange(small) if rnd.random() < 0.9 else rnd.randrange(win)
+            ops.append(dict(pre=pre, drop_after=False,
+                            beats=[dict(a=basew + a, we=we, sel=sel(we) if we else (1 << nbw) - 1, d=rnd.getrandbits(sc["wbw"]),
+                                        cti=rnd.choice([CTI_INCR, CTI_INCR, CTI_INCR, CTI_END, CTI_CLASSIC]),
+                                        abort=abort(we), stbgap=0)]))
+        ops.append(dict(pre=("idle", 2), drop_after=True,
+                        beats=[dict(a=basew + win + 3, we=1, sel=(1 << nbw) - 1, d=rnd.getrandbits(sc["wbw"]), cti=CTI_INCR, abort=None, stbgap=0)]))
+        return ops
     for i in range(sc["nops"]):
         we = int(rnd.random() < sc.get("wfrac", 0.5))
         r = rnd.random()
@@ -756,7 +773,7 @@ def behaviour_to_scenario(beh, suffix_addrs=4):
     return ops, dict(ready=ready, lat=lat)
 
 
-WB_GOALS = ["write_to_cached_word", "access_behind_aborted_read", "drop_in_read_cmd_cache_valid", "pending_merge_other_word",
+WB_GOALS = ["parked_write_to_cached_word", "write_to_occupied_lane", "read_behind_parked_write", "write_to_cached_word", "access_behind_aborted_read", "drop_in_read_cmd_cache_valid", "pending_merge_other_word",
             "cache_hit_last_beat", "write_cmd_stalled_master_gone", "drop_as_data_returns"]
 
 _GOAL_CFG = """SPECIFICATION Spec
@@ -779,9 +796,9 @@ CHECK_DEADLOCK FALSE
 
 
 def _suffix_fix(ops):
-    """The read-back suffix may only follow with CYC held when the last replayed beat did not announce a further burst beat."""
+    """The read-back suffix follows with CYC held (CTI is only a hint) unless the last replayed beat was aborted."""
     n = max(i for i, op in enumerate(ops) if op.get("from_tlc"))
-    if ops[n]["beats"][-1]["cti"] == 2 or ops[n]["beats"][-1]["abort"] is not None:
+    if ops[n]["beats"][-1]["abort"] is not None:
         ops[n + 1]["pre_seq"] = [[0, 1]]
     else:
         ops[n + 1]["pre_seq"] = []
